@@ -111,6 +111,9 @@ type Config struct {
 	Validators []simnode.ValKey
 	// MaxValue caps plain transfer amounts (default 1000 coins).
 	MaxValue *big.Int
+	// UTXOGas is the chain's current gas charge for a confidential transfer
+	// (App.GetUTXOGas()); 0 = the default coefficient's value.
+	UTXOGas uint64
 }
 
 // Gen is a tape-driven workload generator with a reference ledger.
@@ -136,6 +139,12 @@ type Gen struct {
 	wallets   []*Wallet
 	pendKI    map[string]bool
 	msNonce   uint64
+
+	// Outputs reads the chain's output index for ring members (set it to the
+	// proposing replica's UtxoStore.GetUtxoOutput); nil = the generator's own record.
+	Outputs OutputReader
+	// LastUtxoError is the last reason a confidential transaction could not be built.
+	LastUtxoError error
 }
 
 // New creates a generator; all randomness comes from t.
